@@ -30,6 +30,10 @@ CLAIMED = {
          'Symbolic execution of the real RedisLock.AcquireCtx/ReleaseCtx/SetExpire (go/ssa) together with lockscript.lua and delscript.lua (read from the tree, run by the engine Lua-subset evaluator on a Redis model): one step from an arbitrary state (key absent or held by an arbitrary id with arbitrary remaining lease, clock advance symbolic, lease seconds any uint32, 3 instances), store faults and cancelled contexts, and 3-4 step histories against a ghost (holder, expiry).',
          'go/ssa translation, gosym, Lua-5.1-subset evaluator and single-node Redis model (trusted, engine-native: GET/SET NX PX EX/SETEX/DEL/INCRBY/EXPIRE/TTL, lazy expiry on the virtual clock, scripts atomic), z3; distinct instances have distinct ids (assumption); go-redis/RESP conversions per the documented tables.',
          'SSA symbolic execution + SMT (z3) with a Lua front-end over a Redis model; one-step induction + bounded histories'),
+ 'C03': ('DESIGN.md §4 C03',
+         'Symbolic execution of the real PeriodLimit.TakeCtx/calcExpireSeconds and TokenLimiter.reserveN/AllowN/startMonitor/NewTokenLimiter (go/ssa) together with periodscript.lua and tokenscript.lua (read from the tree, run by the engine Lua evaluator on a Redis model): inductive one-step checks from arbitrary stored state (quota, period, burst, counters, TTLs, clock symbolic; rate case-split 1..8), bounded histories of 3-6 calls by two instances against a reference bucket incl. the window bound sum(granted) <= burst + rate*elapsed, store faults and cancelled contexts.',
+         'go/ssa translation, gosym, Lua-subset evaluator + Redis model (trusted), z3; Lua numbers are exact integers/reals (|values| < 2^53 assumed); x/time/rate replaced by its contract (recorded arbitrary answer); callers\' clocks agree with the store clock and are non-decreasing (assumption); whole seconds.',
+         'SSA symbolic execution + SMT (z3) with a Lua front-end over a Redis model; one-step induction + bounded histories'),
 }
 
 NA = {
